@@ -34,7 +34,7 @@ m = {
     "setup_cmd": "./check --setup",
     "hooks": {
         "guard": "verif",
-        "enable": "go test -tags verif (harness module /verif/harness with replace => /repo)",
+        "enable": "go test -tags verif,verif_cXX (harness module /verif/harness with replace => /repo; the yield hooks and the nflog query-key export need only `verif`, every other white-box export file is additionally guarded by the tag of the checks that use it)",
         "baseline_off_cmd": "cd /repo && go test -mod=mod -json -vet=off -count=1 -timeout 25m ./...",
         "source_commits": hooks.get("source_commits", []),
         "add_only": True,
